@@ -74,7 +74,7 @@ def jobs(tier, seed):
         out.append(_j('cash-manual-partial-shows', cfg, opts={'raises': 'minmax', 'show': (None, True, False, 'partial')}, dev_bound=k + 2))
     for j in out:
         j.setdefault('state_cap', 600000 if th else 80000)
-        j.setdefault('time_cap', 700 if th else 60)
+        j.setdefault('time_cap', 1800 if th else 400)
     return out
 
 
